@@ -849,6 +849,80 @@ def c09_work(task):
                         if msg:
                             complain("max_read %s=%r %s %s" % (nm, t, kind, tag), msg,
                                      {"what": "max_read", "name": nm, "t": t, "container": kind, "tuple": [mn, mx, ms], "uc": uc})
+    # the same paths written again - other audio of the same size, then another format: every file container must
+    # report the file's CURRENT content (nothing remembered per path)
+    kw0 = dict(min_dur=aw, max_dur=3 * aw, max_silence=0, analysis_window=aw, energy_threshold=eth)
+    inv = coded([not f for f in flags], W, sw, ch, tail, False)
+    sw2, ch2, rate2 = (1 if sw != 1 else 2), (ch % 3) + 1, rate * 2
+    other = coded(flags[::-1], W, sw2, ch2, 0, True)
+    for data2, f2 in ((inv, (rate, sw, ch)), (other, (rate2, sw2, ch2))):
+        r2, s2, c2 = f2
+        with wave.open(wavf, "wb") as fp:
+            fp.setframerate(r2)
+            fp.setsampwidth(s2)
+            fp.setnchannels(c2)
+            fp.writeframes(data2)
+        with open(rawf, "wb") as fp:
+            fp.write(data2)
+        eth2 = eth_for(s2)
+        kw2 = dict(kw0, energy_threshold=eth2, analysis_window=W / r2, min_dur=W / r2, max_dur=3 * W / r2)
+        base2 = regions_sig(core.split(data2, sr=r2, sw=s2, ch=c2, **kw2), r2)
+        for kind in ("wav", "wav_lazy", "raw", "raw_lazy", "wave_source", "raw_source"):
+            cov["evaluations"] += 1
+            try:
+                if kind == "wav":
+                    got = core.split(wavf, **kw2)
+                elif kind == "wav_lazy":
+                    got = core.split(wavf, large_file=True, **kw2)
+                elif kind == "raw":
+                    got = core.split(rawf, sr=r2, sw=s2, ch=c2, **kw2)
+                elif kind == "raw_lazy":
+                    got = core.split(rawf, large_file=True, sr=r2, sw=s2, ch=c2, **kw2)
+                elif kind == "wave_source":
+                    got = core.split(aio.WaveAudioSource(wavf), **kw2)
+                else:
+                    got = core.split(aio.RawAudioSource(rawf, r2, s2, c2), **kw2)
+                got = regions_sig(got, r2)
+                msg = None if got == base2 else "after the file was rewritten, container %s gives %r, the new audio gives %r" % (
+                    kind, [(s_, len(x)) for s_, x in got][:5], [(s_, len(x)) for s_, x in base2][:5])
+            except Exception as exc:
+                msg = "after the file was rewritten, container %s raised %r" % (kind, exc)
+            if msg:
+                complain("rewritten file %s format=%r" % (kind, f2), msg, {"what": "rewrite", "container": kind})
+    # file sources the caller has already opened and read from: the audio supplied is what is left
+    with wave.open(wavf, "wb") as fp:
+        fp.setframerate(rate)
+        fp.setsampwidth(sw)
+        fp.setnchannels(ch)
+        fp.writeframes(data)
+    with open(rawf, "wb") as fp:
+        fp.write(data)
+    for adv in (W, 2 * W + 1):
+        if adv * bps_ >= len(data):
+            continue
+        rest = data[adv * bps_ :]
+        refr = regions_sig(core.split(rest, sr=rate, sw=sw, ch=ch, **kw0), rate)
+        for kind in ("wave_source", "raw_source", "reader_over_wave"):
+            cov["evaluations"] += 1
+            try:
+                if kind == "wave_source":
+                    src = aio.WaveAudioSource(wavf)
+                elif kind == "raw_source":
+                    src = aio.RawAudioSource(rawf, rate, sw, ch)
+                else:
+                    src = aio.WaveAudioSource(wavf)
+                src.open()
+                src.read(adv)
+                if kind == "reader_over_wave":
+                    got = regions_sig(core.split(util.AudioReader(src, block_dur=aw), **{k: v for k, v in kw0.items() if k != "analysis_window"}), rate)
+                else:
+                    got = regions_sig(core.split(src, **kw0), rate)
+                msg = None if got == refr else "%s opened and advanced by %d samples gives %r, the remaining audio gives %r" % (
+                    kind, adv, [(s_, len(x)) for s_, x in got][:5], [(s_, len(x)) for s_, x in refr][:5])
+            except Exception as exc:
+                msg = "%s opened and advanced raised %r" % (kind, exc)
+            if msg:
+                complain("pre-opened %s adv=%d" % (kind, adv), msg, {"what": "preopen", "container": kind})
     cov["samples"].append({"sw": sw, "ch": ch, "rate": rate, "samples_per_window": W, "pattern": pattern, "tail": tail})
     import shutil
 
